@@ -6,8 +6,9 @@ mcMenu == << << Rl(<<"p">>, <<"s">>, "copy", "c1"), Rl(<<"q">>, <<"p">>, "fn", "
              << Rl(<<"p">>, <<"s">>, "copy", "c1"), Rl(<<"q">>, <<"p">>, "fn", "c2b"), Rl(<<"qq">>, <<"s2">>, "copy", "c3") >>,
              \* q's rule gains a target and a source
              << Rl(<<"p">>, <<"s">>, "copy", "c1"), Rl(<<"q", "q2">>, <<"p", "s2">>, "fn", "c2"), Rl(<<"qq">>, <<"s2">>, "copy", "c3") >> >>
-\* configurations *_empty: p and qq are stamp files (empty content) - two rules with one, empty, output; the second set is the usual chain
-mcMenuE == << << Rl(<<"p">>, <<"s">>, "empty", "c1e"), Rl(<<"q">>, <<"p">>, "fn", "c2"), Rl(<<"qq">>, <<"s2">>, "empty", "c3e") >>, mcMenu[1] >>
+\* configurations *_empty: p is a stamp file (empty content); in the second set qq is one too (two rules with one, empty, output)
+mcMenuE == << << Rl(<<"p">>, <<"s">>, "empty", "c1e"), Rl(<<"q">>, <<"p">>, "fn", "c2"), Rl(<<"qq">>, <<"s2">>, "copy", "c3") >>,
+              << Rl(<<"p">>, <<"s">>, "empty", "c1e"), Rl(<<"q">>, <<"p">>, "fn", "c2"), Rl(<<"qq">>, <<"s2">>, "empty", "c3e") >> >>
 \* zz is an undeclared bystander file
 mcInit == << <<"s", "S0">>, <<"s2", "S0">>, <<"zz", "B0">> >>
 ====
